@@ -649,6 +649,18 @@ func evaluate(cases0 []gen.C08Case, f *lib.Flags, res *lib.Result, st *stats, ve
 			}
 		}
 		if verbose {
+			switch {
+			case u.hist != nil:
+				fmt.Printf("===== last step of history %s (%s), IgnoreDeviateNotSupported=%v at that step: differs from the fresh run\n", u.hist.id, u.hist.desc, it.IgnoreNS)
+				for _, r := range lib.Project(ow.Go.Dump, keys, true) {
+					fmt.Println("   go (history)", rescorr.Readable(r))
+				}
+				for _, r := range lib.Project(u.fresh, keys, true) {
+					fmt.Println("   go (fresh)  ", rescorr.Readable(r))
+				}
+			default:
+				fmt.Printf("===== fresh run, IgnoreDeviateNotSupported=%v\n", it.IgnoreNS)
+			}
 			for k := range it.DevNames {
 				fmt.Printf("--- %s\n%s", it.DevNames[k], it.DevTexts[k])
 			}
@@ -974,12 +986,12 @@ func evaluate(cases0 []gen.C08Case, f *lib.Flags, res *lib.Result, st *stats, ve
 		if u.it.IgnoreNS {
 			opt = "IgnoreDeviateNotSupported set"
 		}
-		pre := fmt.Sprintf("history on one Modules value [%s: %s]: the outcome differs from that of a fresh Modules value under the options in force at the last step (%s); ",
-			u.hist.id, u.hist.desc, opt)
+		post := fmt.Sprintf(" -- at the last step of a history on one Modules value (%s; in force at that step: %s), where a fresh Modules value under these options gives another outcome [history %s]",
+			u.hist.desc, opt, u.hist.id)
 		n := 0
 		evalUnit(i, u, func(d lib.Disagreement) {
 			n++
-			d.What = pre + d.What
+			d.What = d.What + post
 			d.Input = map[string]any{"case": u.orig, "history": u.hist.id, "steps": u.hist.desc, "options_at_last_step": opt}
 			res.AddDisagreement(d)
 		})
@@ -989,7 +1001,7 @@ func evaluate(cases0 []gen.C08Case, f *lib.Flags, res *lib.Result, st *stats, ve
 			res.AddDisagreement(lib.Disagreement{Kind: "correspondence",
 				Input: map[string]any{"case": u.orig, "history": u.hist.id, "steps": u.hist.desc, "options_at_last_step": opt},
 				Go:    u.ow.Go.Dump, Model: u.fresh, SpecVerdict: "",
-				What: pre + "first difference (history | fresh): " + strings.Replace(rescorr.Diff(u.ow.Go.Dump, u.fresh), "| model:", "| fresh:", 1), Replay: u.orig})
+				What: "the outcome differs from that of a fresh Modules value, first difference (go: history, model: fresh): " + rescorr.Diff(u.ow.Go.Dump, u.fresh) + post, Replay: u.orig})
 		}
 	}
 }
